@@ -100,9 +100,10 @@ def gen_case(rng, tier):
             c["lam1"] = rng.choice(LAMS)
         return c
     if kind in ('dqm_eq', 'dqm_ineq'):
-        nv = rng.randint(1, 3)
+        nv = rng.randint(1, 4)
         labels = gen.rand_labels(rng, nv)
-        ncases = [rng.randint(1, 3) if kind == 'dqm_eq' else rng.randint(2, 3) for _ in range(nv)]
+        cmax = 3 if nv <= 3 else 2
+        ncases = [rng.randint(1, cmax) if kind == 'dqm_eq' else rng.randint(2, cmax) for _ in range(nv)]
         lin = [[str(rng.dyadic(6, 1)) for _ in range(k)] for k in ncases]
         quad = []
         for i in range(nv):
@@ -111,6 +112,10 @@ def gen_case(rng, tier):
                     quad.append([i, j, [[a, b, str(rng.dyadic(6, 1))] for a in range(ncases[i]) for b in range(ncases[j])
                                         if rng.random() < 0.6]])
         allc = [(i, a) for i in range(nv) for a in range(ncases[i])]
+        if nv >= 2 and rng.random() < 0.5:
+            # the constraint leaves some variables out (they keep their old interactions)
+            keep = set(rng.sample(range(nv), rng.randint(1, nv - 1)))
+            allc = [x for x in allc if x[0] in keep]
         k = rng.randint(0 if kind == 'dqm_eq' else 1, min(5, len(allc) + 1))
         if rng.random() < 0.3:
             chosen = [rng.choice(allc) for _ in range(k)]        # duplicate (variable, case) allowed
@@ -215,16 +220,50 @@ def observe_dqm(dqm):
     for v in vs:
         for k, b in enumerate(dqm.get_linear(v)):
             lin.append((starts[v] + k, F(b)))
+    asym = None
     for i, u in enumerate(vs):
         for v in vs[i + 1:]:
+            q = qr = None
             try:
                 q = dqm.get_quadratic(u, v)
-            except Exception:
-                continue
-            for (a, b), x in q.items():
+            except ValueError:
+                pass
+            try:
+                qr = dqm.get_quadratic(v, u)
+            except ValueError:
+                pass
+            if (q is None) != (qr is None) or (q is not None and {(b, a): x for (a, b), x in q.items()} != qr):
+                asym = f"get_quadratic({u!r},{v!r}) = {q} but get_quadratic({v!r},{u!r}) = {qr}"
+            if q is None and qr is not None:
+                q = {(b, a): x for (a, b), x in qr.items()}
+            for (a, b), x in (q or {}).items():
                 quad.append((starts[u] + a, starts[v] + b, F(x)))
     groups = [[starts[v] + k for k in range(dqm.num_cases(v))] for v in vs]
-    return {"n": s, "lin": lin, "quad": quad, "groups": groups, "starts": starts, "off": F(dqm.offset)}
+    return {"n": s, "lin": lin, "quad": quad, "groups": groups, "starts": starts, "off": F(dqm.offset), "asym": asym}
+
+
+def dqm_energies(dqm, nvars=None, cap=None):
+    """[(one-hot sample as case-level labels, exact energy)] as DQM.energies reports them, over every
+    assignment of the first nvars variables (the others at case 0); an evenly spaced subset above cap"""
+    vs = list(dqm.variables)
+    starts, s = {}, 0
+    for v in vs:
+        starts[v] = s
+        s += dqm.num_cases(v)
+    free = vs if nvars is None else vs[:nvars]
+    rows = list(itertools.product(*[range(dqm.num_cases(v)) for v in free]))
+    if cap and len(rows) > cap:
+        step = len(rows) / cap
+        rows = [rows[int(i * step)] for i in range(cap)]
+    rows = [tuple(r) + (0,) * (len(vs) - len(free)) for r in rows]
+    if not vs:
+        return []
+    en = dqm.energies((np.array(rows, dtype=np.int64).reshape(len(rows), len(vs)), vs))
+    return [([starts[v] + c for v, c in zip(vs, r)], F(e)) for r, e in zip(rows, en)]
+
+
+def coq_en(rows):
+    return clist([cpair(clist([cpair(cnat(l), cq(1)) for l in ls]), cq(e)) for ls, e in rows])
 
 
 def coq_dobs(o):
@@ -316,14 +355,17 @@ def dqm_terms(c, labels, starts):
 def run_dqm_eq(c):
     dqm, labels = build_dqm(c)
     before = observe_dqm(dqm)
+    en_before = dqm_energies(dqm)
     lam, const = F(c["lam"]), F(c["const"])
     dqm.add_linear_equality_constraint([(labels[i], a, float(b)) for i, a, b in c["terms"]], float(lam), float(const))
     after = observe_dqm(dqm)
+    en_after = dqm_energies(dqm)
     gt = dqm_terms(c, labels, before["starts"])
     terms = clist([cpair(cnat(l), cq(b)) for l, b in gt])
     coq = (f"(mkDqmEq {cnat(after['n'])} {coq_groups(after['groups'])} {terms} {cq(lam)} {cq(const)} "
-           f"{coq_dobs(before)} {coq_dobs(after)})")
+           f"{coq_dobs(before)} {coq_dobs(after)} {coq_en(en_before)} {coq_en(en_after)})")
     return {"coq": coq, "check_fn": "check_dqm_eq", "features": {"kind": "dqm_eq"},
+            "py_fail": before["asym"] or after["asym"],
             "nontrivial": len(gt) > 0, "observed": {"after": str(after["lin"])}}
 
 
@@ -336,6 +378,7 @@ def log10_overcovers(U):
 def run_dqm_ineq(c):
     dqm, labels = build_dqm(c)
     before = observe_dqm(dqm)
+    en_before = dqm_energies(dqm)
     lam = F(c["lam"])
     method = c["method"]
     coeffs = [b for _, _, b in c["terms"]]
@@ -358,6 +401,7 @@ def run_dqm_ineq(c):
             raised = True
             slack = []
     after = observe_dqm(dqm)
+    en_after = dqm_energies(dqm, cap=192)
     svars = []
     for sv, case, val in slack:
         if sv not in svars:
@@ -373,12 +417,14 @@ def run_dqm_ineq(c):
     py_fail = None
     if not raised and len(after["groups"]) != len(before["groups"]) + len(svars):
         py_fail = "slack variables added but not returned"
+    py_fail = py_fail or before["asym"] or after["asym"]
     out = "DRaised" if raised else "(DReturned " + clist([clist([cpair(cnat(l), cz(v)) for l, v in g]) for g in groups]) + ")"
     gt = dqm_terms(c, labels, before["starts"])
     terms = clist([cpair(cnat(l), cz(b)) for l, b in gt])
     m = {'log2': 'Log2', 'log10': 'Log10', 'linear': 'Linear'}[method]
     coq = (f"(mkDqmIneq {cnat(after['n'])} {coq_groups(before['groups'])} {m} {terms} {cq(lam)} "
-           f"{cz(c['const'])} {cz(c['lb'])} {cz(c['ub'])} {out} {coq_dobs(before)} {coq_dobs(after)})")
+           f"{cz(c['const'])} {cz(c['lb'])} {cz(c['ub'])} {out} {coq_dobs(before)} {coq_dobs(after)} "
+           f"{coq_en(en_before)} {coq_en(en_after)})")
     feats = {"kind": "dqm_ineq", "dqm_slack_method": method, "outcome": "raised" if raised else ("slack" if slack else "none")}
     if method == 'log10':
         feats["overcovers"] = bool(over)
